@@ -277,3 +277,164 @@ def _value_handle_registry(repo):
     lean = ("/-- `ValueHandleRegistry::insert`: the condition of the inline-slot fast path -/\n"
             f"def registryInsertFastPath (singleNone overflowEmpty : Bool) : Bool := {cond}")
     return {"fast_path": cond}, lean
+
+
+# ---------------------------------------------------------------------------- serde entry points
+def _locked_src(repo, crate, rel):
+    lock = read(repo, "Cargo.lock")
+    m = re.search(r'name = "%s"\nversion = "([^"]+)"' % re.escape(crate), lock)
+    if not m:
+        raise KeyError(f"{crate} in Cargo.lock")
+    ver = m.group(1)
+    home = os.environ.get("CARGO_HOME", os.path.expanduser("~/.cargo"))
+    cands = glob.glob(os.path.join(home, "registry", "src", "*", f"{crate}-{ver}", *rel.split("/")))
+    if not cands:
+        raise KeyError(f"{crate}-{ver} sources")
+    with open(cands[0], encoding="utf-8") as fh:
+        return ver, fh.read()
+
+def _trait_methods(src, header_re, prefix):
+    """(name, has_default_body) of the `fn <prefix>*` items of a trait, in source order"""
+    body = fn_body(src, header_re)
+    out = []
+    for m in re.finditer(r"\n    fn (%s\w*)\s*(?:<[^{;]*?>)?\s*\(" % prefix, body):
+        # find whether the item ends with `;` (required) or has a `{` body (provided)
+        i = m.end()
+        depth = 1
+        while depth:                      # skip the parameter list
+            c = body[i]
+            depth += (c == "(") - (c == ")")
+            i += 1
+        j = i
+        while body[j] not in "{;":
+            j += 1
+        out.append((m.group(1), body[j] == "{"))
+    return out
+
+def _impl_methods(src, header_re, prefix):
+    body = fn_body(src, header_re)
+    return re.findall(r"\n    (?:#\[[^\]]*\]\s*)*fn (%s\w*)" % prefix, "\n" + body)
+
+@item("SERDE_METHODS")
+def _serde_methods(repo):
+    ver, ser = _locked_src(repo, "serde_core", "src/ser/mod.rs")
+    _, de = _locked_src(repo, "serde_core", "src/de/mod.rs")
+    ser_trait = _trait_methods(ser, r"pub trait Serializer: Sized\s*\{", "serialize_")
+    de_trait = _trait_methods(de, r"pub trait Deserializer<'de>: Sized\s*\{", "deserialize_")
+    if len(ser_trait) < 29 or len(de_trait) < 30:
+        raise KeyError(f"serde trait methods: {len(ser_trait)} / {len(de_trait)}")
+    s = read(repo, "minijinja/src/value/serialize.rs")
+    d = read(repo, "minijinja/src/value/deserialize.rs")
+    ser_impl = _impl_methods(s, r"impl Serializer for ValueSerializer\s*\{", "serialize_")
+    own = _impl_methods(d, r"impl<'de> Deserializer<'de> for Value\s*\{", "deserialize_")
+    ref = _impl_methods(d, r"impl<'de> Deserializer<'de> for &Value\s*\{", "deserialize_")
+    for hdr, lst in ((r"impl<'de> Deserializer<'de> for Value\s*\{", own), (r"impl<'de> Deserializer<'de> for &Value\s*\{", ref)):
+        b = fn_body(d, hdr)
+        rest = re.sub(r"common_forward!\(\);", "", b)
+        if "forward_to_deserialize_any!" in rest or b.count("common_forward!();") != 1:
+            raise KeyError("Deserializer impl forwards methods outside common_forward!()")
+    m = re.search(r"macro_rules! common_forward \{\s*\(\) => \{\s*forward_to_deserialize_any! \{(.*?)\}\s*\};\s*\}", d, re.S)
+    if not m:
+        raise KeyError("common_forward! macro")
+    fwd = ["deserialize_" + w for w in m.group(1).split()]
+    # the borrowed deserializer delegates every explicit method to the owned one
+    refbody = fn_body(d, r"impl<'de> Deserializer<'de> for &Value\s*\{")
+    delegates = all(re.search(r"fn %s<.*?\{\s*self\.clone\(\)\.%s\(" % (n, n), refbody, re.S) for n in ref)
+    # compound serializers: which trait methods each implements
+    comp = {}
+    for tr in ("SerializeSeq", "SerializeTuple", "SerializeTupleStruct", "SerializeTupleVariant", "SerializeMap", "SerializeStruct", "SerializeStructVariant"):
+        comp[tr] = sorted(_impl_methods(s, r"impl ser::%s for %s\s*\{" % (tr, tr), r"(?:serialize_|end)"))
+    # anything else the impls define (is_human_readable, collect_str, …)
+    def other(hdr, src):
+        return sorted(n for n in re.findall(r"\n    (?:#\[[^\]]*\]\s*)*fn (\w+)", "\n" + fn_body(src, hdr)) if not n.startswith(("serialize_", "deserialize_")))
+    others = (other(r"impl Serializer for ValueSerializer\s*\{", s) + other(r"impl<'de> Deserializer<'de> for Value\s*\{", d)
+              + other(r"impl<'de> Deserializer<'de> for &Value\s*\{", d))
+    val = {"serde": ver, "others": others, "ser_trait": ser_trait, "de_trait": de_trait, "ser_impl": ser_impl, "de_owned": own, "de_ref": ref,
+           "de_forwarded": fwd, "ref_delegates": delegates, "compound": comp}
+    def lst(xs):
+        return "[" + ", ".join(lean_str(x) for x in xs) + "]"
+    def lstb(xs):
+        return "[" + ", ".join(f"({lean_str(a)}, {'true' if b else 'false'})" for a, b in xs) + "]"
+    lean = (f"-- serde_core {ver}: (method, has a provided default)\n"
+            f"def serdeSerializerTrait : List (String × Bool) := {lstb(ser_trait)}\n"
+            f"def serdeDeserializerTrait : List (String × Bool) := {lstb(de_trait)}\n"
+            f"def valueSerializerMethods : List String := {lst(ser_impl)}\n"
+            f"def valueDeserializerExplicit : List String := {lst(own)}\n"
+            f"def refValueDeserializerExplicit : List String := {lst(ref)}\n"
+            f"def valueDeserializerForwarded : List String := {lst(fwd)}\n"
+            f"def refValueDeserializerDelegates : Bool := {'true' if delegates else 'false'}\n"
+            f"def valueSerdeImplOtherFns : List String := {lst(others)}\n"
+            "def valueCompoundSerializers : List (String × List String) := ["
+            + ", ".join(f"({lean_str(k)}, {lst(v)})" for k, v in comp.items()) + "]")
+    return val, lean
+
+
+def _norm(s):
+    return re.sub(r"\s+", " ", s.strip())
+
+@item("SERDE_ARMS")
+def _serde_arms(repo):
+    s = read(repo, "minijinja/src/value/serialize.rs")
+    d = read(repo, "minijinja/src/value/deserialize.rs")
+    m = read(repo, "minijinja/src/value/mod.rs")
+    imp = fn_body(s, r"impl Serializer for ValueSerializer\s*\{")
+    prim = []
+    for name in ("bool", "i8", "i16", "i32", "i64", "i128", "u8", "u16", "u32", "u64", "u128", "f32", "f64", "char", "str", "bytes", "none", "unit", "unit_struct", "unit_variant"):
+        body = _norm(fn_body(imp, r"fn serialize_%s\s*\(" % name))
+        body = re.sub(r"^Ok\((.*)\)$", r"\1", body)
+        body = re.sub(r"\.into\(\)$", "", body)
+        prim.append((name, body))
+    # wrappers: serialize_some / newtype_struct are `Ok(transform(value))`
+    for name in ("some", "newtype_struct"):
+        body = _norm(fn_body(imp, r"fn serialize_%s<T>\s*\(" % name))
+        prim.append((name, re.sub(r"^Ok\((.*)\)$", r"\1", body)))
+    anyb = fn_body(d, r"fn deserialize_any<V: Visitor<'de>>\(self, visitor: V\) -> Result<V::Value, Error>\s*\{")
+    arms = []
+    for pat, rhs in re.findall(r"\n\s*(ValueRepr::[^=]*?|ObjectRepr::[^=]*?)\s*=>\s*(?:\{\s*)?(.*?)(?=,\n|\n\s*\}\n|\{\n)", anyb, re.S):
+        pat = _norm(pat)
+        rhs = _norm(rhs)
+        v = re.match(r"visitor\.(visit_\w+)\(", rhs)
+        arms.append((pat, v.group(1) if v else ("error" if rhs.startswith("Err(") else "match" if rhs.startswith("match") else rhs[:40])))
+    opt = _norm(fn_body(d, r"fn deserialize_option<V: Visitor<'de>>\(self, visitor: V\) -> Result<V::Value, Error>\s*\{"))
+    opt_ok = opt == "match self.0 { ValueRepr::None | ValueRepr::Undefined(_) => visitor.visit_unit(), _ => visitor.visit_some(self), }"
+    us = _norm(fn_body(d, r"fn deserialize_unit_struct<V: Visitor<'de>>\(\s*self,\s*_name: &'static str,\s*visitor: V,\s*\) -> Result<V::Value, Error>\s*\{"))
+    ns = _norm(fn_body(d, r"fn deserialize_newtype_struct<V: Visitor<'de>>\(\s*self,\s*_name: &'static str,\s*visitor: V,\s*\) -> Result<V::Value, Error>\s*\{"))
+    # `impl Serialize for Value` towards an external serializer
+    sv = fn_body(m, r"impl serde::Serialize for Value\s*\{")
+    ext = []
+    mm = re.search(r"match self\.0 \{(.*)\}\s*\}\s*$", sv, re.S)
+    if not mm:
+        raise KeyError("external arms of Value::serialize")
+    for pat, meth in re.findall(r"\n\s{12}(ValueRepr::[^=]*?)\s*=>\s*(?:\{\s*)?serializer\.(serialize_\w+)\(", mm.group(1), re.S):
+        ext.append((_norm(pat), meth))
+    plain = re.search(r"ObjectRepr::Plain => serializer\.(serialize_\w+)\(&o\.to_string\(\)\)", sv)
+    ext.append(("ObjectRepr::Plain", plain.group(1) if plain else "?"))
+    val = {"prim": prim, "any": arms, "option_as_expected": opt_ok, "unit_struct": us, "newtype_struct": ns, "external": ext}
+    def pairs(xs):
+        return "[" + ", ".join(f"({lean_str(a)}, {lean_str(b)})" for a, b in xs) + "]"
+    lean = (f"def valueSerializerPrimArms : List (String × String) := {pairs(prim)}\n"
+            f"def valueDeserializeAnyArms : List (String × String) := {pairs(arms)}\n"
+            f"def valueDeserializeOptionAsModelled : Bool := {'true' if opt_ok else 'false'}\n"
+            f"def valueDeserializeUnitStruct : String := {lean_str(us)}\n"
+            f"def valueDeserializeNewtypeStruct : String := {lean_str(ns)}\n"
+            f"def valueSerializeExternalArms : List (String × String) := {pairs(ext)}")
+    return val, lean
+
+
+@item("SERDE_ARGTYPE")
+def _serde_argtype(repo):
+    d = read(repo, "minijinja/src/value/deserialize.rs")
+    a = read(repo, "minijinja/src/value/argtypes.rs")
+    imp = fn_body(d, r"impl<'a, T: DeserializeOwned> ArgType<'a> for Serde<T>\s*\{")
+    body = _norm(fn_body(imp, r"fn from_value\(value: Option<&'a Value>\) -> Result<Self, Error>\s*\{"))
+    want = ("match value { Some(value) => { if value.is_kwargs() { return Err(Error::new( ErrorKind::InvalidOperation, "
+            "\"cannot deserialize from kwargs\", )); } T::deserialize(value).map(Serde) } None => Err(Error::from(ErrorKind::MissingArgument)), }")
+    only = re.findall(r"fn (\w+)", imp) == ["from_value"]
+    opt = fn_body(a, r"impl<'a, T: ArgType<'a>> ArgType<'a> for Option<T>\s*\{")
+    ob = _norm(fn_body(opt, r"fn from_value\(value: Option<&'a Value>\) -> Result<Self::Output, Error>\s*\{"))
+    owant = ("match value { Some(value) => { if value.is_undefined() || value.is_none() { Ok(None) } else { "
+             "T::from_value(Some(value)).map(Some) } } None => Ok(None), }")
+    val = {"serde_arg": body == want and only, "option_arg": ob == owant}
+    lean = (f"def serdeArgTypeAsModelled : Bool := {'true' if val['serde_arg'] else 'false'}\n"
+            f"def optionArgTypeAsModelled : Bool := {'true' if val['option_arg'] else 'false'}")
+    return val, lean
